@@ -81,12 +81,22 @@ def plan(tier, ctx):
     for n in ([2, 3, 4] if tier == "quick" else [2, 3, 4, 5]):
         qs.append(_Q("x86/build_huff_tree/n%d" % n, "harness.C18.heap_x86:tree_query", dict(sizes=[n]), core=(n == 3), family="x86/build_huff_tree",
                      weight=8 ** n / 50.0, timeout=3000))
+    # ---- (lead) stored header written at a non-byte-aligned position (stateless level 0 after a constant-run block) -----
+    hcs = [7, 8, 15, 20] if quick else list(range(1, 25)) + [45, 79, 110]
+    for hc in hcs:
+        for he in ((0, 1, 4, 7) if quick else range(8)):
+            for pc in ((1, 4, 7) if quick else range(1, 8)):
+                p = dict(harness="harness/C18/h_hdrunal.c", units=IGZIP_UNITS, defines=FAST, hdefines=["HC=%d" % hc, "HE=%d" % he, "PC=%d" % pc],
+                         unwind=8 * hc + 24, witness=(hc == 15 and he == 1 and pc == 7))
+                qs.append(Query("hdr_unaligned/hc%d_he%d_pc%d" % (hc, he, pc), R, p, core=(hc == 15 and he == 1 and pc == 7), family="hdr_unaligned",
+                                weight=hc / 10.0))
     return Plan(
         "C18", "model_checking", qs,
         functions_encoded=["rl_encode", "write_rl", "create_packed_len_table", "create_packed_dist_table", "create_code_tables",
                            "get_len_code", "get_dist_code", "compute_dist_code", "get_dist_icf_code", "get_len_icf_code",
                            "convert_length_to_len_sym", "convert_dist_to_dist_sym", "dist_code_extra_bits[]",
-                           "are_hufftables_useable", "heapify", "build_heap", "isal_deflate_set_hufftables"],
+                           "are_hufftables_useable", "heapify", "build_heap", "isal_deflate_set_hufftables",
+                           "write_deflate_header_unaligned_stateless (bitbuf2.h write_bits/check_space/flush)"],
         bounds={
             "rl_encode": "ALL length sequences over 0..15 of 1..6 entries (thorough 1..9; nc=9 715 s); all sequences of <= 2 runs with "
                          "24 entries; write_rl: every (length 0..15, run 1..300)",
